@@ -995,6 +995,12 @@ func (m *Machine) timeNow(fr *Frame) Value {
 		st[fieldIndex(tt, "ext")] = m.P.clockLast
 		return st
 	}
+	if m.P != nil && m.P.ghost["clock-concrete"] != nil {
+		// harnesses for which time plays no role: a fixed instant (2030-01-01), stated in their bounds
+		st[fieldIndex(tt, "wall")] = Const(64, 0)
+		st[fieldIndex(tt, "ext")] = Const(64, 64029052800)
+		return st
+	}
 	sec := m.NewInput("clock!now", 64, "clock")
 	// seconds since year 1: 2001-01-01 = 63113904000 ; 2100-01-01 = 66238041600 (approx bounds)
 	if m.P.concrete == nil {
